@@ -191,6 +191,10 @@ def check_named(obj, step, label, n_of=None, names_of=None):
     if is_exc(n) or is_exc(names) or n != len(names):
         fail(label + '.count_names', 'differs',
              'n_parameters %s, names %s' % (short(n), short(names)), step)
+    again = call(lambda: list((names_of or obj.get_parameter_names)()))
+    if is_exc(again) or again != names:
+        fail(label + '.count_names', 'second_look',
+             'names %s, asked again: %s' % (names, short(again)), step)
     return n, names
 
 
@@ -309,6 +313,33 @@ def check_hier_ll(hl, pm, lls, vals, step, world, default_names):
 # ---------------------------------------------------------------------------
 # interpreter
 # ---------------------------------------------------------------------------
+def wrap_mech(mech, spec):
+    """
+    The user may hand over a ReducedMechanisticModel: one that never had a
+    parameter fixed, or one whose only fixed parameter was released again.
+    """
+    import chi
+    how = spec.get('mech_wrap')
+    if not how:
+        return mech
+    red = chi.ReducedMechanisticModel(mech)
+    if how == 'fix_release':
+        nm = red.parameters()[0]
+        red.fix_parameters({nm: 0.7})
+        red.fix_parameters({nm: None})
+    return red
+
+
+def check_user_mech(mech, step, label):
+    """A composite must leave the user's model consistent with itself."""
+    n = call(lambda: int(mech.n_parameters()))
+    names = call(lambda: list(mech.parameters()))
+    if is_exc(n) or is_exc(names) or n != len(names):
+        fail(label + '.user_model', 'count_names',
+             'after the composition the user\'s mechanistic model reports '
+             'n_parameters %s and names %s' % (short(n), short(names)), step)
+
+
 def build_ll(spec, n_mech, table_id=None):
     """spec: {'toy': {...}} or {'mech': recipe}; returns (ll, mech, errs)."""
     import chi
@@ -316,6 +347,7 @@ def build_ll(spec, n_mech, table_id=None):
         mech = zoo.toy_mech(n_mech, spec['toy']['n_outputs'])
     else:
         mech = zoo.build_mech(dict(spec['mech']))
+    mech = wrap_mech(mech, spec)
     errs = [zoo.build_error(e) for e in spec['errors']]
     times = [list(t) for t in spec['times']]
     obs = [list(o) for o in spec['obs']]
@@ -338,6 +370,12 @@ def run(scenario, world):
     triples = []
     prev = 'init'
     default_names = True
+    user_mechs = []
+
+    def bl(spec, n_mech):
+        ll_, m_, e_ = build_ll(spec, n_mech)
+        user_mechs.append(m_)
+        return ll_, m_, e_
     kind = _pop_tag(recs['pm']['pop'])
     # a population model is told how many individuals it models before it
     # is used with them (as HierarchicalLogLikelihood and the controller do)
@@ -435,12 +473,12 @@ def run(scenario, world):
             if n_mech < 1:
                 continue
             if 'toy' not in llspec:
-                ll0, mech, errs = build_ll(llspec, n_mech)
+                ll0, mech, errs = bl(llspec, n_mech)
                 if ll0.n_parameters() != pm.n_dim():
                     continue
             lls = []
             for i in range(kk):
-                ll, mech, errs = build_ll(llspec, n_mech)
+                ll, mech, errs = bl(llspec, n_mech)
                 ll.set_id('ind %d' % (i + 1))
                 lls.append(ll)
             kw = {}
@@ -492,7 +530,7 @@ def run(scenario, world):
                      'shape %s, n_parameters %d' % (np.shape(init), n), step)
         elif o == 'compose_ll':
             n_mech = max(1, pm.n_dim() - n_err(llspec))
-            ll, mech, errs = build_ll(llspec, n_mech)
+            ll, mech, errs = bl(llspec, n_mech)
             check_ll(ll, vals, step, world, mech, errs)
             # reconfiguration of the likelihood itself: fix, check, release
             names_ll = ll.get_parameter_names()
@@ -543,7 +581,7 @@ def run(scenario, world):
             n_mech = pm.n_dim() - n_err(llspec)
             if n_mech < 1:
                 continue
-            _, mech, errs = build_ll(llspec, n_mech)
+            _, mech, errs = bl(llspec, n_mech)
             pred = chi.PredictiveModel(mech, errs)
             if pred.n_parameters() != pm.n_dim():
                 continue
@@ -571,6 +609,8 @@ def run(scenario, world):
                 mech = zoo.toy_mech(n_mech, llspec['toy']['n_outputs'])
             else:
                 mech = zoo.build_mech(dict(llspec['mech']))
+            mech = wrap_mech(mech, llspec)
+            user_mechs.append(mech)
             errs = [zoo.build_error(e) for e in llspec['errors']]
             if any(e['cls'] is None for e in llspec['errors']):
                 continue
@@ -681,6 +721,8 @@ def run(scenario, world):
                 if mech.n_parameters() != n_mech:
                     continue
                 n_out = mech.n_outputs()
+            mech = wrap_mech(mech, llspec)
+            user_mechs.append(mech)
             times = op['times']
             data = np.array(op['data'])[:, :n_out, :len(times)]
             if data.shape[1] != n_out:
@@ -744,6 +786,9 @@ def run(scenario, world):
         triples.append((prev, o, kind))
         prev = o
         check_pop(pm, cur_k, vals, cov_vals, step, 'after ' + o, world)
+        for m_ in user_mechs:
+            check_user_mech(m_, step, o)
+        del user_mechs[:]
     return {'triples': triples}
 
 
@@ -882,6 +927,8 @@ def _generate(rng, index, tier):
         llspec = {'h': 'll', 'kind': 'llspec', 'mech': mech,
                   'errors': errors}
     grid = [0.5, 1.0, 2.0, 3.5]
+    if rng.random() < 0.25:
+        llspec['mech_wrap'] = rng.choice(['never_fixed', 'fix_release'])
     llspec['times'] = [sorted(rng.sample(grid, rng.randint(1, 4)))
                        for _ in range(n_out)]
     llspec['obs'] = [[round(rng.uniform(0.2, 2.0), 2) for _ in ts]
